@@ -657,6 +657,11 @@ class BaseCartesianData(BaseData, metaclass=abc.ABCMeta):
 
         self._externally_derivable_components = derivable_components
 
+        # Masks memoized for selections on attributes that are reached through
+        # links (or through aligned pixel coordinates) are no longer valid
+        # once the links have changed
+        clear_all_caches()
+
         if self.hub:
             msg = ExternallyDerivableComponentsChangedMessage(self)
             self.hub.broadcast(msg)
